@@ -17,6 +17,36 @@ LEVEL_NOTE = ("Not decided: that equal 32-bit ids mean the same syntax node in t
               "injective within a tree), and the values observed by programs.")
 
 
+def _good_key(a):
+    return (a[0] == "place" and a[2] and a[2][-1][0] == "field" and a[2][-1][3] == "index" and a[2][-1][1] == "tsg::graph::SyntaxNodeRef") or \
+           (a[0] == "call" and re.search(r"tree_sitter::Node::<'tree>::id$", a[1] or "") is not None)
+
+
+def _bad_key_sources(prog, f, argno, depth):
+    """call sites (transitively through parameters) that pass something else than SyntaxNodeRef.index / Node::id() for parameter argno of f"""
+    cg = prog.callgraph()
+    bad = []
+    callers = list(cg.callers(f.id))
+    if not callers:
+        bad.append((f.id, f.loc(), "no call site found for the parameter"))
+    for caller in callers:
+        cf = prog.fns[caller]
+        if cf.body is None:
+            continue
+        ctr = Tracer(cf.body)
+        for (cb, ct) in cg.sites.get((caller, f.id), []):
+            if argno - 1 >= len(ct["args"]):
+                continue
+            a = strip(ctr.operand(ct["args"][argno - 1]))
+            if _good_key(a):
+                continue
+            if a[0] == "arg" and depth > 0:
+                bad.extend(_bad_key_sources(prog, cf, a[1], depth - 1))
+            else:
+                bad.append((cf.id, sp_str(ct["sp"]), canon(a)))
+    return bad
+
+
 def key_rule(prog, rep):
     rep.rule("C04.K", "every key of a map keyed by SyntaxNodeID derives from SyntaxNodeRef.index or `Node::id() as SyntaxNodeID`")
     n = 0
@@ -53,21 +83,12 @@ def key_rule(prog, rep):
                 ok = None
             if ok:
                 rep.ok("C04.K", k, sp_str(t["sp"]), "key = %s" % kc[:120])
-            elif key[0] == "arg" and f.name in ("try_get",):
-                # parameter: judged at the call sites of this helper
-                ok2 = True
-                cg = prog.callgraph()
-                for caller in cg.callers(f.id):
-                    cf = prog.fns[caller]
-                    ctr = Tracer(cf.body)
-                    for (cb, ct) in cg.sites.get((caller, f.id), []):
-                        a = strip(ctr.operand(ct["args"][key[1] - 1]))
-                        good = (a[0] == "place" and a[2] and a[2][-1][0] == "field" and a[2][-1][3] == "index" and a[2][-1][1] == "tsg::graph::SyntaxNodeRef") or \
-                               (a[0] == "call" and re.search(r"tree_sitter::Node::<'tree>::id$", a[1] or ""))
-                        if not good:
-                            ok2 = False
-                            rep.violation("C04.K", "%s :: argument of %s" % (cf.id, f.name), sp_str(ct["sp"]), "syntax-node key is derived differently: %s" % canon(a)[:160])
-                if ok2:
+            elif key[0] == "arg":
+                # a parameter: judged at the call sites of this function (transitively)
+                bad = _bad_key_sources(prog, f, key[1], 3)
+                for cid, where, what in bad:
+                    rep.violation("C04.K", "%s :: argument of %s" % (cid, f.name), where, "syntax-node key is derived differently: %s" % what[:160])
+                if not bad:
                     rep.ok("C04.K", k, sp_str(t["sp"]), "key is a parameter; every call site passes SyntaxNodeRef.index or Node::id() as u32")
             else:
                 rep.violation("C04.K", k, sp_str(t["sp"]), "syntax-node key is not SyntaxNodeRef.index / Node::id() as u32: %s" % kc[:160])
@@ -209,6 +230,52 @@ def memo_rule(prog, rep):
                   "the scoped store receives %s instead of a store thunk of the value" % (detail[:160] if sa else "nothing"))
 
 
+def forcing_window(prog, rep):
+    """While a name's cell is in the Forcing state (between replace(Forcing) and replace(Forced(map))), a read of the same name
+    fails with RecursivelyDefinedScopedVariable.  The window may therefore contain only the forcing of the *scopes* (force);
+    evaluating a stored *value* inside it turns `let @a.x = @b.x` into a spurious recursion error (strict has none)."""
+    rep.rule("C04.F", "LazyScopedVariables::{evaluate, evaluate_all}: between cell.replace(Forcing) and cell.replace(Forced(..)) nothing but `force` can re-enter the scoped store")
+    cg = prog.callgraph()
+    target = [f.id for f in prog.find(self_ty="tsg::execution::lazy::store::LazyScopedVariables", name="evaluate")]
+    n = 0
+    for nm in ("evaluate", "evaluate_all"):
+        fl = prog.find(self_ty="tsg::execution::lazy::store::LazyScopedVariables", name=nm)
+        if len(fl) != 1 or len(target) != 1:
+            rep.violation("C04.F", "anchor-lost:LazyScopedVariables::%s" % nm, "", "not found")
+            continue
+        f = fl[0]
+        body, tr = f.body, Tracer(f.body)
+        opens, closes = set(), set()
+        for b, t in body.calls():
+            if is_callee(t, r"cell::Cell::<T>::replace$"):
+                v = canon(tr.operand(t["args"][1]))
+                if re.match(r"^(\w+::)*ScopedValues::Forcing\b", v):
+                    opens.add(b)
+                elif re.match(r"^(\w+::)*ScopedValues::Forced\b", v):
+                    closes.add(b)
+        if not opens or not closes:
+            rep.violation("C04.F", "anchor-lost:%s forcing window" % f.id, f.loc(), "replace(Forcing)/replace(Forced) pair not found")
+            continue
+        succ = set()
+        for o in opens:
+            succ |= set(body.succ(o))
+        window = body.reach_from(sorted(succ), avoid=closes) | closes
+        bad = []
+        for (caller, tg), sites in cg.sites.items():
+            if caller != f.id:
+                continue
+            for b, t in sites:
+                if b in window and b not in closes and b not in opens:
+                    n += 1
+                    if tg.endswith("LazyScopedVariables::force"):
+                        continue
+                    if target[0] == tg or target[0] in cg.reachable_from([tg]):
+                        bad.append("%s at %s" % (tg.rsplit("::", 2)[-2] + "::" + tg.rsplit("::", 1)[-1], sp_str(t["sp"])))
+        rep.check(not bad, "C04.F", "%s :: forcing window" % f.id, f.loc(), "only `force` runs while the name is marked Forcing",
+                  "while the variable name is marked Forcing the function also calls %s, which can read a scoped variable of the same name: a definition that refers to the same name on another node fails with a spurious recursion error" % ", ".join(bad[:3]))
+    rep.floor("C04.F", n, 2, "local calls inside the forcing windows")
+
+
 def run(prog, rep):
     n, ncasts = key_rule(prog, rep)
     rep.floor("C04.K", n, 6, "keyed accesses of syntax-node maps")
@@ -274,6 +341,18 @@ def run(prog, rep):
                             found = True
         rep.check(found, "C04.D", "%s :: duplicate" % f.id, f.loc(), "a previous entry for the same node id (insert returned Some) yields DuplicateVariable",
                   "lazy forcing does not report DuplicateVariable when insert() finds an earlier definition")
+        # ... and on nothing else: the arm that reports the duplicate is reached whenever insert() returned Some
+        extra = []
+        for b in sorted(body.reachable()):
+            for st in body.blocks[b]["stmts"]:
+                if st["k"] == "assign" and st["rv"]["k"] == "aggregate" and st["rv"].get("variant") == "DuplicateVariable":
+                    for g in dominating_guards(body, tr, b):
+                        cc = canon(g.cond)
+                        structural = (g.variant in ("Some", "None", "Unforced", "Continue", "Ok") and re.search(r"HashMap::insert\(|Iterator::next\(|arg:values|Try::branch\(", cc) is not None)
+                        if not structural:
+                            extra.append("%s = %s" % (cc[:100], g.value if g.value is not None else g.variant))
+        rep.check(not extra, "C04.D", "%s :: duplicate is unconditional" % f.id, f.loc(), "no further condition decides whether a second definition is reported",
+                  "a second definition on the same node is reported only under an extra condition (%s): otherwise the later value silently wins" % "; ".join(extra[:2]))
     for fid, variant in (("strict::<impl tsg::ast::ScopedVariable>::get", "UndefinedVariable"), ("LazyScopedVariables::evaluate", "UndefinedScopedVariable")):
         fl = [f for f in prog.fns.values() if f.id.endswith(fid)]
         ok = False
@@ -284,7 +363,27 @@ def run(prog, rep):
                         if st["k"] == "assign" and st["rv"]["k"] == "aggregate" and st["rv"].get("variant") == variant:
                             ok = True
         rep.check(ok, "C04.D", "%s :: undefined" % fid, "", "a failed lookup constructs %s" % variant, "a failed lookup does not construct %s" % variant)
+    # S: strict definitions/assignments act on the evaluated scope node itself
+    rep.rule("C04.S", "strict `let/var/set @n.x`: the variable map written is that of the evaluated scope node itself — no ancestor walk (inheritance applies to reads only)")
+    for nm in ("add", "set"):
+        fl = [x for x in prog.find(self_ty="tsg::ast::ScopedVariable", name=nm) if "strict" in x.id]
+        if len(fl) != 1:
+            rep.violation("C04.S", "anchor-lost:strict ScopedVariable::%s" % nm, "", "not found")
+            continue
+        f = fl[0]
+        body, tr = f.body, Tracer(f.body)
+        gm = [(b, t) for b, t in body.calls() if is_callee(t, r"ScopedVariables::<'a>::get_mut$")]
+        w = [(b, t) for b, t in body.calls() if is_callee(t, r"variables::MutVariables::%s$" % nm)]
+        walks = [sp_str(t["sp"]) for g in [f] + prog.all_closures_under(f) for b, t in g.body.calls() if is_callee(t, r"tree_sitter::Node::<'tree>::parent$", r"ScopedVariables::<'a>::try_get$")]
+        ok = len(gm) == 1 and len(w) == 1 and not natural_loops(body) and not walks
+        if ok:
+            recv = canon(strip(tr.operand(w[0][1]["args"][0])))
+            key = canon(tr.operand(gm[0][1]["args"][1]))
+            ok = "ScopedVariables::get_mut(" in recv and "arg:self.scope" in key
+        rep.check(ok, "C04.S", "%s :: own map" % f.id, f.loc(), "scoped.get_mut(<evaluated self.scope>).%s(name, value)" % nm,
+                  "strict `%s` of a scoped variable does not (only) write the map of the evaluated scope node%s" % (nm, " (it walks ancestors at %s)" % walks[0] if walks else ""))
     memo_rule(prog, rep)
+    forcing_window(prog, rep)
     from . import C02
     C02.lazy_phases(prog, rep)
     # E2.d over the scoped-variable code
